@@ -58,8 +58,9 @@ def _snap(flat):
 def run(seed=0, tier="quick"):
     res = {"ok": True, "cases": 0, "samples": [], "name": "Poisson glue programs vs real solvers (sequences of solves) + FFT contract",
            "kernel_calls": 0, "fft_contract_checks": 0, "worst_fft_contract_err": 0.0}
-    shapes2 = [(5, 8), (8, 5), (7, 6)] if tier == "quick" else [(5, 8), (8, 5), (7, 6), (9, 9), (4, 11), (11, 4)]
-    shapes3 = [(3, 4, 5), (5, 3, 4)] if tier == "quick" else [(3, 4, 5), (5, 3, 4), (4, 4, 6), (6, 5, 3)]
+    # sizes include axes whose doubled length has a large prime factor (17, 19, 23: FFT-length-dependent code paths)
+    shapes2 = [(5, 8), (8, 5), (7, 6), (4, 19)] if tier == "quick" else [(5, 8), (8, 5), (7, 6), (9, 9), (4, 11), (11, 4), (4, 19), (23, 3)]
+    shapes3 = [(3, 4, 5), (5, 3, 4), (17, 3, 4)] if tier == "quick" else [(3, 4, 5), (5, 3, 4), (4, 4, 6), (6, 5, 3), (17, 3, 4), (3, 19, 3), (3, 4, 23)]
     real_t = np.float64
     for dim, shapes, driver in ((2, shapes2, "Prog2D"), (3, shapes3, "Prog3D")):
         requests, expects, traces, labels = [], [], [], []
@@ -166,9 +167,9 @@ def run(seed=0, tier="quick"):
 def oracle(seed=0, tier="quick", aimed=None):
     cases = 0
     samples = []
-    cfgs = [(2, (5, 8)), (2, (8, 5)), (2, (7, 7)), (3, (3, 4, 5)), (3, (5, 4, 3))]
+    cfgs = [(2, (5, 8)), (2, (8, 5)), (2, (7, 7)), (3, (3, 4, 5)), (3, (5, 4, 3)), (2, (19, 4)), (3, (4, 17, 3)), (3, (3, 4, 19))]
     if tier != "quick":
-        cfgs += [(2, (9, 6)), (2, (6, 9)), (2, (4, 10)), (3, (4, 4, 6)), (3, (6, 3, 4)), (3, (4, 6, 4))]
+        cfgs += [(2, (9, 6)), (2, (6, 9)), (2, (4, 10)), (3, (4, 4, 6)), (3, (6, 3, 4)), (3, (4, 6, 4)), (2, (5, 23)), (3, (23, 3, 3)), (3, (17, 5, 4))]
     for ci, (dim, shape) in enumerate(cfgs):
         for real_t, tol in ((np.float64, 1e-10), (np.float32, 3e-4)):
             r = impl.rng(seed, "c03", ci)
